@@ -7,6 +7,7 @@ import (
 	"encoding/json"
 	"fmt"
 	"os"
+	"os/exec"
 	"path/filepath"
 	"runtime"
 	"runtime/debug"
@@ -40,7 +41,11 @@ type Viol struct {
 	SourceHex string         `json:"source_hex,omitempty"`
 	Detail    string         `json:"detail,omitempty"` // expected / got, human readable
 	Extra     map[string]any `json:"extra,omitempty"`  // whatever the replay function needs
-	order     [3]int64
+	// History: the inputs the same worker examined directly before this one (check name, hex of the source), oldest first.
+	// Kept in the replay file only when the violation does not reproduce in a fresh state but does after these inputs:
+	// the code under test then carries state from one call to the next.
+	History [][2]string `json:"history,omitempty"`
+	order   [3]int64
 }
 
 type Known struct {
@@ -110,7 +115,10 @@ type Worker struct {
 	nontriv  int64
 	counters map[string]int64
 	check    string
+	recent   [][2]string // the last inputs passed to Begin (check, source), oldest first
 }
+
+const historyLen = 8
 
 func New(property, tier, level string) *Runner {
 	seed, _ := strconv.ParseInt(os.Getenv("VERIF_SEED"), 10, 64)
@@ -184,6 +192,12 @@ func ReadSlots(path string) []string {
 // Begin records the case the worker is about to run (for the watchdog and for
 // crash attribution). check names the sub-check.
 func (w *Worker) Begin(check, src string) {
+	if w.cur != "" && (w.cur != src || w.check != check) {
+		if len(w.recent) >= historyLen {
+			w.recent = append(w.recent[:0], w.recent[1:]...)
+		}
+		w.recent = append(w.recent, [2]string{w.check, w.cur})
+	}
 	w.check = check
 	w.curMu.Lock()
 	w.cur = src
@@ -249,6 +263,9 @@ func (w *Worker) Fail(sig, src, detail string, extra map[string]any) {
 	defer r.mu.Unlock()
 	r.sigCount[sig]++
 	if r.sigCount[sig] <= 3 {
+		for _, h := range w.recent {
+			v.History = append(v.History, [2]string{h[0], fmt.Sprintf("%x", h[1])})
+		}
 		r.viols = append(r.viols, v)
 	}
 	if len(r.sigCount) > 400 {
@@ -673,6 +690,8 @@ func Probe(property string, f func(w *Worker)) (out []Viol) {
 // signature is reported again.
 func ReplayBy(property string, f func(w *Worker, v *Viol)) func(v *Viol) (bool, string) {
 	return func(v *Viol) (bool, string) {
+		hist := v.History
+		v.History = nil
 		got := Probe(property, func(w *Worker) { f(w, v) })
 		var sigs []string
 		for _, g := range got {
@@ -681,8 +700,62 @@ func ReplayBy(property string, f func(w *Worker, v *Viol)) func(v *Viol) (bool, 
 			}
 			sigs = append(sigs, g.Sig)
 		}
-		return false, fmt.Sprintf("replay produced signatures %q", sigs)
+		if len(hist) == 0 {
+			return false, fmt.Sprintf("replay produced signatures %q", sigs)
+		}
+		// Not reproducible statelessly: run the inputs that preceded it on the same worker first, each attempt in a
+		// fresh process (this process carries whatever state the sweep left behind). A violation that appears only
+		// then is a real one - the result of a call depends on earlier calls - and the record keeps the history.
+		for start := len(hist) - 1; start >= 0; start-- {
+			hv := *v
+			hv.History = hist[start:]
+			if !isPrintable(hv.Source) {
+				hv.SourceHex = fmt.Sprintf("%x", hv.Source)
+			}
+			tmp, err := os.CreateTemp("", "verif-history-*.json")
+			if err != nil {
+				break
+			}
+			b, _ := json.Marshal(hv)
+			tmp.Write(b)
+			tmp.Close()
+			cmd := exec.Command(os.Args[0], property, "--replay", tmp.Name())
+			out, err := cmd.CombinedOutput()
+			os.Remove(tmp.Name())
+			if ee, ok := err.(*exec.ExitError); ok && ee.ExitCode() == 1 && strings.Contains(string(out), "VIOLATION property="+property) {
+				v.History = hist[start:]
+				var srcs []string
+				for _, h := range v.History {
+					srcs = append(srcs, fmt.Sprintf("%q", unhex(h[1])))
+				}
+				v.Detail += "\n(not reproducible in a fresh process on its own; reproduced in a fresh process after examining these inputs first: " + strings.Join(srcs, ", ") + " - the result of a call depends on earlier calls)"
+				return true, ""
+			}
+		}
+		return false, fmt.Sprintf("replay produced signatures %q (also in fresh processes after the %d inputs that preceded it)", sigs, len(hist))
 	}
+}
+
+func unhex(s string) string {
+	var raw []byte
+	fmt.Sscanf(s, "%x", &raw)
+	return string(raw)
+}
+
+// ReplayWithHistory re-runs the inputs recorded in v.History (ignoring what they report) and then v itself.
+func ReplayWithHistory(f func(w *Worker, v *Viol), w *Worker, v *Viol) {
+	for _, h := range v.History {
+		hv := *v
+		hv.Check, hv.Source, hv.SourceHex, hv.History = h[0], unhex(h[1]), "", nil
+		func() {
+			defer func() { recover() }()
+			f(w, &hv)
+		}()
+	}
+	w.R.mu.Lock()
+	w.R.viols = nil
+	w.R.mu.Unlock()
+	f(w, v)
 }
 
 // LoadViol reads a replay file.
